@@ -2,11 +2,14 @@
 \* pending.Dec() (instead of being read after pending reached zero): must violate ErrorReported
 CONSTANTS
   MCTrees <- MCTreesPair
+  WithNextPanic = FALSE
+  SuccessOnlyAtEnd = TRUE
+  RegisterAtomic = TRUE
   KeepFirstError = TRUE
   RecoverPerStage = TRUE
   FirstErrorWins = TRUE
   ErrReadAtCompletion = FALSE
 SPECIFICATION MCSpec
-INVARIANTS AtMostOnce OnlyAfterAll OnlyAfterAllStrong ExactlyOnceAtEnd PendingSane ErrorReported
+INVARIANTS AtMostOnce OnlyAfterAll OnlyAfterAllStrong ExactlyOnceAtEnd PendingSane ErrorReported CompletedOnce
 PROPERTY Terminates
 CHECK_DEADLOCK FALSE
